@@ -1,7 +1,7 @@
 (* Props/C16.v — property C16: NaT is absorbing; unit changes agree with the calendar.
    Statements about the model (Model/Time.v) closed by `exact`; Print Assumptions at the end. *)
 From Coq Require Import ZArith List Bool.
-From Tevec Require Import Base.Prelude Spec.Calendar Model.Time Proofs.Time Proofs.Calendar.
+From Tevec Require Import Base.Prelude Spec.Calendar Model.Time Proofs.Time Proofs.Calendar Model.TimeAccess Proofs.TimeAccess.
 Local Open Scope Z_scope.
 
 (* ---- (1) NaT is preserved by every conversion ------------------------------------------------ *)
@@ -142,6 +142,45 @@ Proof. vm_compute. auto. Qed.
 Example C16_ex_calendar : civil_of_days 11016 = (2000, 2, 29) /\ days_of_civil (1900, 3, 1) = -25508.
 Proof. vm_compute. auto. Qed.
 
+(* ---- (7) X9: is_not_nat, the Option<i64> view both ways, the TryFrom impl called directly, to_cr ------------ *)
+Theorem C16_is_not_nat :
+  (forall x, is_not_nat x = negb (is_nat x)) /\ (forall x, is_not_nat x = true <-> x <> NaT)
+  /\ (forall x, is_not_nat x = true <-> into_opt_i64 x = Some x) /\ is_not_nat NaT = false.
+Proof. repeat split; try apply is_not_nat_iff; try apply is_not_nat_opt. Qed.
+
+Theorem C16_is_not_nat_timedelta :
+  (forall d, td_is_not_nat d = negb (td_is_nat d)) /\ (forall v, td_is_not_nat (td_from_i64 v) = is_not_nat v).
+Proof. split; [exact td_is_not_nat_negb | exact td_from_i64_not_nat]. Qed.
+
+Theorem C16_opt_i64_roundtrip :
+  (forall x, from_opt_i64 (into_opt_i64 x) = x)
+  /\ (forall o, o <> Some NaT -> into_opt_i64 (from_opt_i64 o) = o)
+  /\ into_opt_i64 (from_opt_i64 (Some NaT)) = None.
+Proof. repeat split; [exact from_into_opt_i64' | exact into_from_opt_i64]. Qed.
+
+(* the TryFrom<DateTime<U>> impls agree with as_cr on every timestamp of every unit — NaT included — so a NaT
+   never reaches the calendar type by any route (holds for the nanosecond impl since the repair) *)
+Theorem C16_try_from_is_as_cr : forall u x, try_from_cr u x = as_cr u x.
+Proof. exact try_from_cr_as_cr. Qed.
+
+Theorem C16_try_from_nat : forall u, try_from_cr u NaT = None.
+Proof. exact try_from_cr_nat. Qed.
+
+Theorem C16_try_from_roundtrip :
+  forall u x c, in_i64 x = true -> try_from_cr u x = Some c -> from_cr u c = Ok x.
+Proof. exact try_from_cr_roundtrip. Qed.
+
+Theorem C16_try_from_valid_only : forall u x c, try_from_cr u x = Some c -> x <> NaT.
+Proof. exact try_from_cr_some_not_nat. Qed.
+
+Theorem C16_to_cr : forall u x, to_cr u x = as_cr u x.
+Proof. exact to_cr_as_cr. Qed.
+
+Example C16_ex_try_from :
+  in_i64 (-1) = true /\ try_from_cr Nano (-1) = Some (mkcr (-1) 999999999) /\ from_cr Nano (mkcr (-1) 999999999) = Ok (-1)
+  /\ is_not_nat (-1) = true /\ Some 5 <> Some NaT /\ into_opt_i64 (from_opt_i64 (Some 5)) = Some 5.
+Proof. repeat split; discriminate. Qed.
+
 Print Assumptions C16_nat_conv_unit.
 Print Assumptions C16_nat_ops_datetime.
 Print Assumptions C16_coarsen_floor.
@@ -151,3 +190,11 @@ Print Assumptions C16_cr_roundtrip.
 Print Assumptions C16_cr_roundtrip_from.
 Print Assumptions C16_from_cr_nano.
 Print Assumptions C16_calendar_lawful.
+Print Assumptions C16_is_not_nat.
+Print Assumptions C16_is_not_nat_timedelta.
+Print Assumptions C16_opt_i64_roundtrip.
+Print Assumptions C16_try_from_is_as_cr.
+Print Assumptions C16_try_from_nat.
+Print Assumptions C16_try_from_roundtrip.
+Print Assumptions C16_try_from_valid_only.
+Print Assumptions C16_to_cr.
